@@ -8,7 +8,7 @@ PROP = {
             "io.Pipes with a scripted client and server; (c) sequences of 1-5 transfers through ONE relay instance (success, "
             "exit from the server, #fail:/#FAIL: from either side, Ctrl-C, double Ctrl-C, refused, undecodable ACT, undecodable "
             "CFG, Ctrl-C during the handshake; end marker whole or split across two reads), each followed by a fresh trigger, "
-            "status word, tunnelConnected flag and forwarding (raw / re-tagged / parked) compared after every chunk; the same with transfers over a REAL loopback tunnel (SetTunnelConnector, the client connects to the port the relay announces; ended by EXIT / #fail: / #FAIL: on the tunnel, Ctrl-C on the terminal, or refused) and with clients that claim a tunnel and decline, each followed by plain transfers through the same relay: no ACT offering binary without the tunnel and no unparked ACT may reach the server; (a2) the FRAMING of the handshake (fn handshake2, VerifRelayHandshake2): every Go client (on Windows / not, Windows server / not, tunnel / not) x relay outside tmux / tmux normal / tmux control x remembered clientIsWindows x confirmed / refused / no CFG / undecodable ACT, all mismatched framings (garbled and blocked readers), random objects with random framings - outcome, status, terminator of every line the relay sends, clientIsWindows afterwards; oracles relay-client-terminator, relay-server-terminator, relay-handshake-failed; (d) chains of 1-4 relays; (f) end to end: the real client as a client on Windows and as a Unix client through 1-2 real relays against the real trz/tsz must complete with identical content; (e) the real "
+            "status word, tunnelConnected flag and forwarding (raw / re-tagged / parked) compared after every chunk; the same with transfers over a REAL loopback tunnel (SetTunnelConnector, the client connects to the port the relay announces; ended by EXIT / #fail: / #FAIL: on the tunnel, Ctrl-C on the terminal, or refused) and with clients that claim a tunnel and decline, each followed by plain transfers through the same relay: no ACT offering binary without the tunnel and no unparked ACT may reach the server; (a2) the FRAMING of the handshake (fn handshake2, VerifRelayHandshake2): every Go client (on Windows / not, Windows server / not, tunnel / not) x relay outside tmux / tmux normal / tmux control x remembered clientIsWindows x confirmed / refused / no CFG / undecodable ACT, all mismatched framings (garbled and blocked readers), random objects with random framings - outcome, status, terminator of every line the relay sends, clientIsWindows afterwards; oracles relay-client-terminator, relay-server-terminator, relay-handshake-failed; (g) the relay's detector in stand-by (fn stand_by_read): one read through the real wrapOutput for plain / %output / %extended-output framing x relay with / without tunnel connector x trigger with port / :0 / no port field, port digits in version, id and surrounding output; oracles relay-trigger-not-taken / -taken / -altered, relay-port-not-rewritten; (d) chains of 1-4 relays; (f) end to end: the real client as a client on Windows and as a Unix client through 1-2 real relays against the real trz/tsz must complete with identical content; (e) the real "
             "server prefix of trz (recvAction, capability checks, sendConfig). Every case exercises a rewrite or a status "
             "change, so all are non-trivial; distinct = distinct input line ; group e2e-tmux-relay: the real `trzsz -r` inside a real tmux pane: the CFG line as the client read it carries tmux_output_junk, the relay's pane width and binary=false also for trz/tsz -b; consecutive transfers and a stopped one through the same relay, which then exits cleanly",
     "trusted": ["modelled, not verified: JSON text <-> object (the model starts at 'key absent/null or present with a typed value'; "
